@@ -30,6 +30,10 @@ CHECKS = {
   technique='property-based testing (Hypothesis) with differential/metamorphic oracles: product rule between model(), model_contrib() and model_full_contrib(), insertion-order permutation, zero-abundance removal, per-component opacity vs table x mixing ratio reference, probe histories (fresh model, sub-grid, parameter change)',
   text='Generated transmission worlds with a drawn subset and insertion order of six built-in contributions; transmittances of the whole, of each contribution and of each component are compared through the product rule (exact off the cut-off, one-sided on saturated layers), spectra of permuted insertion orders and of worlds with/without a zero-abundance species are compared, component opacities are compared with the reference; exploration level.',
   note='H- not generated; Rayleigh/Mie components only checked for proportionality; one open known finding (two hazes sharing the name Mie).'),
+ 'C19': dict(
+  technique='property-based testing (Hypothesis): validity predicates over per-layer opacities (opaque at/below cloud top, untouched above, zero outside the haze window, declared magnitude and wavelength law inside) plus differential against the cloud-free model and the reference transit integral',
+  text='Generated transmission worlds with a cloud deck / grey haze / parameterised haze whose bounds are placed inside, beyond either end, below 1 Pa, unset or inverted, and cloud tops exactly on a layer pressure; exploration level.',
+  note='Haze window = [min,max] of the declared bounds with unset bounds replaced by the atmosphere ends; grey-haze magnitude judged on layers wholly inside (or the largest overlap); emission geometry not judged.'),
 }
 
 NOT_APPLICABLE = {}
